@@ -29,7 +29,7 @@ SUB = {
     'item': ['\\begin{itemize}', '\\end{itemize}', '\\item', '\\item[', ']', 'x', 'é', ' ', '{', '}', '$', '\\a', '\\begin{e}', '\\end{e}'],
     'esc': ['\\', '\\\\', '%', '\\%', 'c', '\n', '{', '}', '$', '\\$', ' ', 'a', '\\a', '*'],
     'sig': ['\\def', '\\textbf', '\\section', '\\label', '\\newcommand', '\\a', '{', '}', '[', ']', 'x', ' ', '\\cup', '\\left', '(', '\\begin{e}', '\\end{e}',
-            '\\textbf{a}', '\\label{k}', '\\section[s]{t}', '\\def{a}{b}', '\\def\\foo{bar}', '\\section\\foo', '\\p{a}{b}{c}', '\\newcommand{\\p}[2]{x}', '\\renewcommand*', '%c\n'],
+            '\\textbf{a}', '\\label{k}', '\\section[s]{t}', '\\def{a}{b}', '\\def\\foo{bar}', '\\section\\foo', '\\p{a}{b}{c}', '\\newcommand{\\p}[2]{x}', '\\renewcommand*', '%c\n', '\\newcommand{\\p}[]{x}', '\\newcommand{\\p}[#]'],
     'names': ['\\emph', '\\textit', '\\ref', '\\cite', '\\frac', '\\text', '\\section*', '\\item', '%c\n', ' ', 'x', '{', '}', '[', ']', '\n'],
     'ign': ['\x00', '\x7f', '\\', '$', '%', '{', '}', 'a', ' ', '\n', '[', '(', '\\\\'],
 }
